@@ -34,7 +34,31 @@ def io_custom_cost3(p=0.5, q=1.0, r=-1.0):
     return (p - 0.7) ** 2 / 0.01 + (q - 1.5) ** 2 / 0.25 + (r + 0.2) ** 2 + 0.1 * p * q * r
 
 
+# user functions that carry the NAME and the argument names of an entry of kafe2's function library but another body:
+# what is written to a file must be the function, not its name
+def linear(x, a=1.0, b=0.5):
+    return a + b * x
+
+
+def quadratic_model(x, a=0.5, b=1.0, c=2.0):
+    return a + b * x + c * x**2
+
+
 CUSTOM = {"io_custom_cost": (io_custom_cost, ["a", "b"], [1.0, 2.0]), "io_custom_cost3": (io_custom_cost3, ["p", "q", "r"], [0.5, 1.0, -1.0])}
 
-XY = {"io_linear": (io_linear, ["a", "b"], [1.0, 0.5]), "io_quadratic": (io_quadratic, ["a", "b", "c"], [0.5, 1.0, 2.0]), "io_expo": (io_expo, ["A", "k"], [2.0, 0.3])}
+XY = {"linear": (linear, ["a", "b"], [1.0, 0.5]), "quadratic_model": (quadratic_model, ["a", "b", "c"], [0.5, 1.0, 2.0]),
+      # model functions given as names of kafe2's function library
+      "lib:linear_model": ("linear_model", ["a", "b"], [1.0, 1.0]), "lib:quadratic": ("quadratic", ["a", "b", "c"], [1.0, 1.0, 1.0]),
+      "lib:exponential_model": ("exponential_model", ["A_0", "x_0"], [1.0, 1.0]),
+      "io_linear": (io_linear, ["a", "b"], [1.0, 0.5]), "io_quadratic": (io_quadratic, ["a", "b", "c"], [0.5, 1.0, 2.0]), "io_expo": (io_expo, ["A", "k"], [2.0, 0.3])}
 IDX = {"io_idx4": (io_idx4, 4, ["a", "b"], [1.5, 2.0]), "io_idx6": (io_idx6, 6, ["a", "b", "c"], [1.0, 1.0, 3.0])}
+
+
+def fn(mk):
+    """The Python callable behind an XY entry (library names are resolved through kafe2's own table)."""
+    f = XY[mk][0]
+    if callable(f):
+        return f
+    import importlib
+
+    return importlib.import_module("kafe2.fit.util.function_library").STRING_TO_FUNCTION[f]
